@@ -1032,125 +1032,79 @@ func tokenCtorStart(f *ssa.Function, la *lexAnchors) startSrc {
 }
 
 func r10_3(c *Ctx, lf *lexFacts, la *lexAnchors) {
-	ctors := map[*ssa.Function]startSrc{}
-	for _, f := range c.libFunctions("lexer") {
-		if f.Signature.Results().Len() == 1 && namedIs(f.Signature.Results().At(0).Type(), "token", "Token") && f.Signature.Recv() != nil {
-			ctors[f] = tokenCtorStart(f, la)
-		}
+	// every way the dispatcher returns a token (walk per first byte, lexpaths.go): the Line and Column stored in the
+	// token's Start were read from the cursor before the path advanced at all — whatever helpers or constructors the
+	// values then travelled through
+	outs, probs := c.lexOutcomes()
+	for _, p := range probs {
+		c.unres("dispatcher paths", lf.base.Pos(), "%s", p)
 	}
-	// delegating constructors: every return is a call of a constructor whose Start parameters are fed from this
-	// function's own parameters (or, for a constructor that reads the cursor, this function does not advance first)
-	for round := 0; round < 3; round++ {
-		for f, src := range ctors {
-			if src.ok {
-				continue
+	if len(probs) > 0 {
+		return
+	}
+	tc := c.tokenConsts()
+	type verdict struct {
+		ok     bool
+		detail string
+		pos    token.Pos
+	}
+	verdicts := map[string]*verdict{}
+	var order []string
+	for _, o := range outs {
+		name := "<computed>"
+		switch {
+		case o.typOK:
+			name = tc.name(o.typ)
+		case o.ident:
+			name = "identifier/keyword"
+		case o.scanTyp:
+			name = "type from the scanner"
+		}
+		pos := lf.base.Pos()
+		if o.builder != nil {
+			pos = o.builder.Pos()
+		}
+		if o.site != nil {
+			pos = o.site.Pos()
+		}
+		lex := ""
+		if o.scanner != nil {
+			lex = " via " + o.scanner.Name()
+		} else {
+			fixed := len(o.consumed) > 0
+			var bs []byte
+			for _, set := range o.consumed {
+				b, single := set.single()
+				if !single || b < 0x21 || b > 0x7e {
+					fixed = false
+					break
+				}
+				bs = append(bs, b)
 			}
-			var out startSrc
-			good, any := true, false
-			allInstrs(f, func(_ *ssa.BasicBlock, _ int, in ssa.Instruction) {
-				ret, ok := in.(*ssa.Return)
-				if !ok {
-					return
-				}
-				call, ok := ret.Results[0].(*ssa.Call)
-				if !ok {
-					good = false
-					return
-				}
-				g := call.Call.StaticCallee()
-				gs, isCtor := ctors[g]
-				if !isCtor || !gs.ok || g == f {
-					good = false
-					return
-				}
-				any = true
-				if gs.fromFields {
-					if lf.mayAdvance(f) {
-						good = false
-					}
-					out.fromFields = true
-					return
-				}
-				for i, p := range g.Params {
-					if p != gs.lineParam && p != gs.colParam {
-						continue
-					}
-					fp, isP := call.Call.Args[i].(*ssa.Parameter)
-					if !isP {
-						good = false
-						continue
-					}
-					if p == gs.lineParam {
-						if out.lineParam != nil && out.lineParam != fp {
-							good = false
-						}
-						out.lineParam = fp
-					} else {
-						if out.colParam != nil && out.colParam != fp {
-							good = false
-						}
-						out.colParam = fp
-					}
-				}
-			})
-			if good && any && (out.fromFields != (out.lineParam != nil)) && (out.fromFields || out.colParam != nil) {
-				out.ok = true
-				ctors[f] = out
+			if fixed {
+				lex = fmt.Sprintf(" %q", string(bs))
 			}
 		}
+		key := fmt.Sprintf("%s: token construction (%s)%s", fnName(lf.base), name, lex)
+		v := verdict{pos: pos}
+		switch {
+		case o.startLineAdv < 0 || o.startColAdv < 0:
+			v.detail = "the token's Start is not the cursor's Line/Column (or the walk lost track of it)"
+		case o.startLineAdv != 0 || o.startColAdv != 0:
+			v.detail = "the token takes its Start from the cursor after the path has already advanced: Start is not the token's first byte (two-character operators start one column late)"
+		default:
+			v.ok, v.detail = true, "Start = Line/Column read before any advance"
+		}
+		if old, seen := verdicts[key]; !seen {
+			verdicts[key] = &v
+			order = append(order, key)
+		} else if old.ok && !v.ok {
+			*old = v
+		}
 	}
-	for _, cx := range lf.contextsOf(lf.base) {
-		n := 0
-		allInstrs(lf.base, func(_ *ssa.BasicBlock, _ int, in ssa.Instruction) {
-			call, ok := in.(*ssa.Call)
-			if !ok {
-				return
-			}
-			src, isCtor := ctors[call.Call.StaticCallee()]
-			if !isCtor {
-				return
-			}
-			n++
-			tt := "?"
-			if k, ok := constInt64(unwrap(call.Call.Args[1])); ok {
-				tt = c.tokenConsts().name(k)
-			}
-			key := fmt.Sprintf("%s: token construction #%d (%s)", fnName(lf.base), n, tt)
-			if !src.ok {
-				c.unres(key, call.Pos(), "cannot tell where %s takes the token's Start from", call.Call.StaticCallee().Name())
-				return
-			}
-			st := cx.before[call]
-			if st == nil || !st.live {
-				c.unres(key, call.Pos(), "construction site not reached by the analysis")
-				return
-			}
-			if src.fromFields {
-				c.check(st.noAdv, key, call.Pos(), "Start = cursor position, and no advance has happened since the dispatcher was entered", "the token is constructed after the cursor advanced and takes the CURRENT position as Start: Start is not the token's first byte (two-character operators start one column late)")
-				return
-			}
-			good := true
-			for i, p := range call.Call.StaticCallee().Params {
-				if p != src.lineParam && p != src.colParam {
-					continue
-				}
-				arg := call.Call.Args[i]
-				want := la.line
-				if p == src.colParam {
-					want = la.col
-				}
-				ld, ok := arg.(*ssa.UnOp)
-				if _, isF := isFieldLoad(arg, want); !ok || !isF {
-					good = false
-					continue
-				}
-				ls := cx.before[ld]
-				if ls == nil || !ls.live || !ls.noAdv {
-					good = false
-				}
-			}
-			c.check(good, key, call.Pos(), "Start = Line/Column read before any advance", "the start position handed to the constructor was not read from Line/Column before the first advance")
-		})
+	for _, k := range order {
+		v := verdicts[k]
+		c.check(v.ok, k, v.pos, v.detail, v.detail)
 	}
 }
 
